@@ -46,7 +46,7 @@ grid, over every ordered scalar. -/
 theorem desiredPressureStatus_is_source (pTvGpa : List (List α)) (desiredGpa : List α) :
     evalGuard Generated.pressureGuard pTvGpa desiredGpa = some (desiredPressureStatus pTvGpa desiredGpa) := by
   unfold evalGuard desiredPressureStatus
-  simp only [Generated.pressureGuard, sideArray, errOf, reduceCtorEq, if_true, if_false]
+  simp only [Generated.pressureGuard, sideArray, errOf, if_true]
   by_cases hemp : pTvGpa.any (fun row => row.isEmpty) = true
   · simp [hemp]
   · simp only [hemp]
